@@ -47,16 +47,18 @@ def gen_cases(tier, seed):
 
 
 # ---------------------------------------------------------------- oracles
-def check_min_needs(eaten, mhc, p1, T, KD, where):
-    """eaten/mhc: dict food -> array (kcal/person/day).  Returns list of (mech,msg)."""
+def check_min_needs(eaten, mhc, p1, T, KD, where, noise=0.0):
+    """eaten/mhc: dict food -> array (kcal/person/day).  Returns list of (mech,msg).
+    noise: what the solver's feasibility tolerance on a variable of the round-1 model amounts to in kcal/person/day (real runs only:
+    the round-1 result the minimum is taken from can itself be negative by that much)."""
     out = []
     N = len(next(iter(eaten.values())))
     cap = min(p1, T) / 100.0 * KD
     tot_e = sum(eaten[f] for f in ORDER)
     tot_m = sum(mhc[f] for f in ORDER)
     for f in ORDER:
-        if (mhc[f] < -(1e-9 * max(1.0, cap) + 1e-9)).any():
-            out.append(("min_needs_negative", "%s: %s negative" % (where, f)))
+        if (mhc[f] < -(1e-9 * max(1.0, cap) + 1e-9) - noise).any():
+            out.append(("min_needs_negative", "%s: %s negative (%.3g in month %d)" % (where, f, float(mhc[f].min()), int(mhc[f].argmin()))))
         over = mhc[f] - eaten[f]
         if over.max() > 1e-9 * max(1.0, eaten[f].max()) + 1e-9:
             out.append(("min_needs_exceeds_eaten", "%s: %s month %d pinned %.8g > eaten %.8g" % (where, f, int(over.argmax()), mhc[f][int(over.argmax())], eaten[f][int(over.argmax())])))
@@ -304,7 +306,8 @@ def monitor(tr, case):
                                   + np.asarray(ir1.new_stored_outdoor_crops_kcals_equivalent.kcals, float))
         got = {f: np.asarray(mhc[f].kcals, float) for f in ORDER}
         T = ci["MINIMUM_PERCENT_FED_BEFORE_NONHUMAN_CONSUMPTION_ALLOWED"]
-        add(check_min_needs(eaten, got, float(ir1.percent_people_fed), float(T), KD, "round1->round2 minimum needs"), "min_needs")
+        # (1e-6 billion kcal, CBC's feasibility tolerance with a margin, per person and day of this country)
+        add(check_min_needs(eaten, got, float(ir1.percent_people_fed), float(T), KD, "round1->round2 minimum needs", noise=1e-6 * 1e9 / (30.0 * float(ci["POP"]))), "min_needs")
         obs["audited"] += 1
         obs["handoffs"].append({"what": "min_needs", "p1": float(ir1.percent_people_fed), "T": float(T), "pinned_sum_month0": float(sum(got[f][0] for f in ORDER))})
         # ... and what the feed-maximising round actually holds people to: in its solved model each pinned food's human consumption
